@@ -62,3 +62,45 @@ pub fn dispatch(id: &str, args: &RunArgs, replay: Option<&Path>, strict: bool) -
         }
     }
 }
+
+/// Outcome of one byte-level fuzz execution.
+pub enum FuzzVerdict {
+    Ok,
+    /// (message, case as JSON)
+    Violation(String, serde_json::Value),
+    Unknown,
+}
+
+fn fuzz_one<P: Property>(case: P::Case) -> FuzzVerdict {
+    use crate::engine::{guarded_check, Guarded, Mode, Outcome};
+    match guarded_check::<P>(&case, Mode::Normal) {
+        Guarded::Out(Outcome::Fail(m)) => {
+            FuzzVerdict::Violation(m, serde_json::to_value(&case).unwrap())
+        }
+        Guarded::LibPanic(m) if P::PANIC_IS_VIOLATION => {
+            FuzzVerdict::Violation(m, serde_json::to_value(&case).unwrap())
+        }
+        Guarded::HarnessBug(m) => FuzzVerdict::Violation(format!("HARNESS BUG: {m}"), serde_json::to_value(&case).unwrap()),
+        _ => FuzzVerdict::Ok,
+    }
+}
+
+/// Decode libFuzzer bytes into the property's case struct and judge it with
+/// the same oracle the proptest engine uses.
+pub fn fuzz_dispatch(id: &str, data: &[u8]) -> FuzzVerdict {
+    match id {
+        "C01" => fuzz_one::<c01::P>(c01::decode(data)),
+        "C04" => fuzz_one::<c04::P>(c04::decode(data)),
+        "C05" => fuzz_one::<c05::P>(c05::decode(data)),
+        "C09" => fuzz_one::<c09::P>(c09::decode(data)),
+        "C10" => fuzz_one::<c10::P>(c10::decode(data)),
+        "C11" => fuzz_one::<c11::P>(c11::decode(data)),
+        "C12" => fuzz_one::<c12::P>(c12::decode(data)),
+        "C14" => fuzz_one::<c14::P>(c14::decode(data)),
+        "C15" => fuzz_one::<c15::P>(c15::decode(data)),
+        "C17" => fuzz_one::<c17::P>(c17::decode(data)),
+        "C18" => fuzz_one::<c18::P>(c18::decode(data)),
+        "C19" => fuzz_one::<c19::P>(c19::decode(data)),
+        _ => FuzzVerdict::Unknown,
+    }
+}
